@@ -485,7 +485,7 @@ def run(tier, seed, replay=None):
         'the bookkeeping of SsaAnalysisState::{define_id, use_id} (crates/samlang-checker/src/ssa_analysis.rs); tied to the '
         'code by running it on the event trace logged by the hook samlang_checker::verif (add-only log lines in the four '
         'methods, in use_id and at the lambda pop) and comparing with the dumped SsaAnalysisResult',
-        'which construct emits which events is observed, not modelled (except patterns: `emit`, checked against the trace)',
+        'which construct emits which events is modelled in theories/C15v/Visitor.v (a mirror of ssa_analysis.rs visit_*), proved to compute lexical scoping, and compared event for event with the hook log of every module (checks/c15_visitor.py)',
         'harness/src/scope_run.rs (event log -> JSON, comparison of two traces up to a relabelling of locations, the '
         'independent AST walk that enumerates identifier occurrences) and checks/c15.py (JSON -> Gallina terms, interning)',
         'behaviour of renamed programs: the reference interpreter vh src-run (testing, not proof)',
@@ -647,6 +647,11 @@ def run(tier, seed, replay=None):
         i0 = cases[0][0]
         ck.sample({'label': progs[i0]['label'], 'text': results[i0]['text'][:600], 'events': len(evs[i0]),
                    'occurrences': len(results[i0]['occurrences']), 'renames': len(results[i0].get('renames', []))})
+    if not replay:
+        # the visitor: Gallina mirror of ssa_analysis.rs visit_* (theories/C15v), proved to compute lexical scoping, compared
+        # event for event with the hooked analysis on every module
+        from checks import c15_visitor
+        c15_visitor.visitor(ck, tier, seed)
     os.makedirs(os.path.join(WORK, 'c15'), exist_ok=True)
     with open(os.path.join(WORK, 'c15', 'failures_%s.json' % tier), 'w') as f:     # scratch copy of everything found, for debugging
         json.dump({'property_failures': ck.mon_fail, 'disagreements': ck.corr_fail}, f, indent=1, default=str)
